@@ -12,15 +12,16 @@ one term over an ordered stream (`chainWF`: every request contiguous, prev terms
 the merge rule never looks at `prev_log_term` —, entry terms and leader commit non-decreasing); the follower
 log is well-formed.
 
-* `merge_equiv_log`  — log and term are the same merged or one-at-a-time (no further hypothesis).
-* `merge_equiv`      — log, term, commit index and `ackEquiv` (every sender gets a success, the merged ack
-  carries the match position of the LAST sequential ack, so the leader's `update_peer_index` fold gives the same
-  match/next) under `noShrink` (no request of the queue truncates a tail an earlier one left) and `ackAnchored`.
-* `MergeEquivStatement` (the same without those two hypotheses) is REFUTED on the code as it is
-  (`merge_equiv_refuted`): follower 1..10 of term 1 (7..10 a stale tail), queue `prev=5 [6] commit=9`,
-  `prev=6 [7 (term 2)] commit=9` — one at a time the follower first commits min(9, 10) = 9 (stale entries 7..9!),
-  then truncates to 7 and keeps commit = 9 > last; merged it commits min(9, 7) = 7. Root cause is the follower
-  commit rule `min(leader_commit, WHOLE last index)` (C07), finding F50.
+* `merge_equiv`      — **full strength since fix F50 (commit c57f05e)**: for every `mergeable` queue whose first
+  request is accepted, merged and one-at-a-time processing give the same log, term, commit index, and
+  `ackEquiv` acknowledgements (every sender gets a success, the merged ack carries the match position of the
+  LAST sequential ack, so the leader's `update_peer_index` fold gives the same match/next). No hypothesis about
+  tails behind the chain is needed any more: the follower commit rule and the heartbeat ack now use
+  `prev + len` (index of last new entry), not the follower's whole last index.
+  The old F50 witness (follower 1..10 with stale tail 7..10, queue `prev=5 [6] commit=9`,
+  `prev=6 [7 (term 2)] commit=9`: 9 vs 7 before the fix) is kept below as a kernel-checked regression example
+  and in `corpus/repl/f50_merge_stale_tail.case`.
+* `merge_equiv_log`  — the log/term part on its own.
 * `merge_rejected`   — first request rejected: merged processing = that one rejection for everybody.
 * `no_merge_literal` — queues the code does not merge at all are processed literally one at a time.
 * `per_sender_equality_refuted` — the literal reading "each sender receives the same ack" is false by design
@@ -113,101 +114,66 @@ theorem seq_log (l : Log) (acc : Req) (rest : List (Req × Nat)) (s : FState)
     rw [List.all_append, this.2.2, hs]
     simp [Ack.isSuccess]
 
-theorem upd_merge (c0 e1 c1 e2 c2 : Nat) (hc : c1 ≤ c2) (he : e1 ≤ e2) :
-    (match ifUpdateCommit (match ifUpdateCommit c0 e1 c1 with | some x => x | none => c0) e2 c2 with
-      | some x => x | none => (match ifUpdateCommit c0 e1 c1 with | some x => x | none => c0)) =
-    (match ifUpdateCommit c0 e2 (max c1 c2) with | some x => x | none => c0) := by
-  unfold ifUpdateCommit
-  have hmax : max c1 c2 = c2 := by omega
-  rw [hmax]
-  by_cases h1 : c1 > c0
-  · by_cases h3 : c2 > min c1 e1
-    · have h2 : c2 > c0 := by omega
-      simp only [h1, h2, h3, ↓reduceIte]
-    · have hle1 := Nat.min_le_left c1 e1
-      have hle2 := Nat.min_le_right c1 e1
-      have h2 : c2 > c0 := by omega
-      simp only [h1, h2, h3, ↓reduceIte]
-      rw [Nat.min_eq_left (by omega : c1 ≤ e1), Nat.min_eq_left (by omega : c2 ≤ e2)]
-      omega
-  · by_cases h2 : c2 > c0 <;> simp only [h1, h2, ↓reduceIte]
+/-- the commit rule composes along the chain (`e' = e + n`, leader commit non-decreasing). -/
+theorem commitAfter_merge (c0 : Nat) (acc r : Req) (hc : acc.commit ≤ r.commit)
+    (hch : r.prev = acc.prev + acc.ents.length) :
+    commitAfter (commitAfter c0 acc) r = commitAfter c0 (mergeReq acc r) := by
+  unfold commitAfter
+  rw [mergeReq_commit, mergeReq_prev, mergeReq_ents, List.length_append, hch]
+  simp only [Nat.max_def, Nat.min_def]
+  repeat' split
+  all_goals omega
 
-/-- commit index after handling the chain one request at a time, when the last index never moves back. -/
+/-- commit index after handling the chain one request at a time. -/
 theorem seq_commit (l : Log) (c0 : Nat) (acc : Req) (rest : List (Req × Nat)) (s : FState)
     (hc : ChainOK l acc rest) (hlog : s.log = logAfter l acc) (hterm : s.term = acc.term)
-    (hcommit : s.commit = commitAfter c0 (logAfter l acc) acc) (hns : noShrink s rest = true) :
-    (processSeq s rest).1.commit = commitAfter c0 (logAfter l (mergeAll acc rest)) (mergeAll acc rest) := by
+    (hcommit : s.commit = commitAfter c0 acc) :
+    (processSeq s rest).1.commit = commitAfter c0 (mergeAll acc rest) := by
   induction rest generalizing acc s with
   | nil => exact hcommit
   | cons p rest ih =>
     obtain ⟨r, k⟩ := p
     obtain ⟨hstep, hrt, hcm, hrest⟩ := hc
-    simp only [noShrink, Bool.and_eq_true, decide_eq_true_eq] at hns
     have hm := logAfter_merge hstep
     have hacc : Accepts s r := ⟨by omega, by rw [hlog]; exact hm.1⟩
     have hs := stepReq_accepted hacc
-    have hlog' : (stepReq s r).1.log = logAfter l (mergeReq acc r) := by rw [hs, hlog]; exact hm.2.symm
     simp only [processSeq, mergeAll]
-    apply ih (mergeReq acc r) (stepReq s r).1 hrest hlog' (by rw [hs]; exact hrt) _ hns.2
-    have hle : (logAfter l acc).lastIdx ≤ (logAfter l (mergeReq acc r)).lastIdx := by
-      rw [← hlog, ← hlog']; exact hns.1
-    have hcv : (stepReq s r).1.commit = commitAfter s.commit (logAfter s.log r) r := by rw [hs]
-    rw [hcv, hcommit, hlog, ← hm.2]
-    unfold commitAfter
-    rw [mergeReq_commit]
-    exact upd_merge c0 _ acc.commit _ r.commit hcm hle
+    apply ih (mergeReq acc r) (stepReq s r).1 hrest (by rw [hs, hlog]; exact hm.2.symm) (by rw [hs]; exact hrt)
+    rw [hs, hcommit]
+    exact commitAfter_merge c0 acc r hcm hstep.chain
 
 /-! ## acknowledgements -/
 
-theorem lastLogId_of_last {l : Log} (hg : gapFree l.ents = true) {z : Entry} (hz : z ∈ l.ents)
-    (hlast : l.lastIdx ≤ z.index) : l.lastLogId = some (idOf z) := by
-  unfold Log.lastLogId
-  cases hgl : l.ents.getLast? with
-  | none => rw [List.getLast?_eq_none_iff] at hgl; rw [hgl] at hz; simp at hz
-  | some w =>
-    have hw := List.mem_of_getLast? hgl
-    have hwi : w.index = l.lastIdx := by simp [Log.lastIdx, lastOf, hgl]
-    have hzb := (mem_bounds hg hz).2
-    rw [← Log.lastIdx_eq] at hzb
-    have heq : w.index = z.index := by omega
-    have h1 := findE_mem_contig ((gapFree_iff _).mp hg) hw
-    have h2 := findE_mem_contig ((gapFree_iff _).mp hg) hz
-    rw [heq] at h1
-    rw [h1] at h2
-    simp only [Option.some.injEq] at h2
-    rw [h2]
-
 /-- the match position reported for `acc ⊕ r` is the one `r` gets after `acc`. -/
-theorem matchAfter_merge {l : Log} {acc r : Req} (h : ChainStep l acc r)
-    (hanch : r.ents ≠ [] ∨ acc.ents = [] ∨ (logAfter l acc).lastIdx ≤ r.prev) :
+theorem matchAfter_merge {l : Log} {acc r : Req} (h : ChainStep l acc r) :
     matchAfter l (mergeReq acc r) = matchAfter (logAfter l acc) r := by
   have hm := logAfter_merge h
   by_cases hE2 : r.ents = []
   · by_cases hE1 : acc.ents = []
-    · have hl1 : logAfter l acc = l := by simp [logAfter, hE1]
-      simp [matchAfter, mergeReq_ents, hE1, hE2, hl1]
-    · have hlast : (logAfter l acc).lastIdx ≤ r.prev := by
-        rcases hanch with h' | h' | h'
-        · exact absurd hE2 h'
-        · exact absurd h' hE1
-        · exact h'
+    · -- heartbeats only: same prev, same prev term
+      have hprev : r.prev = acc.prev := by have := h.chain; simp [hE1] at this; exact this
+      have hpt : r.prevTerm = acc.prevTerm := by
+        have := h.pt; simp only [prevTermOK, hE1, List.getLast?_nil, beq_iff_eq] at this; exact this
+      simp [matchAfter, mergeReq_ents, hE1, hE2, prevId, mergeReq_prev, mergeReq_prevTerm, hprev, hpt]
+    · -- a heartbeat behind entries is acknowledged with the position of the last entry
       cases hx : acc.ents.getLast? with
       | none => exact absurd (List.getLast?_eq_none_iff.mp hx) hE1
       | some x =>
-        have hmA : termsMono acc.ents = true := (termsFrom_append h.mono).1
-        obtain ⟨hok, z, hz, hzi, hzt⟩ := logAfter_post h.seg h.wf h.accA h.contigA hmA hx
         have hxi : x.index = acc.prev + acc.ents.length := by
           have := lastOf_contig (show contigFrom (acc.prev + 1) acc.ents = true from h.contigA) hE1
           simp only [lastOf, hx] at this
           have hpos : 0 < acc.ents.length := List.length_pos_iff.mpr hE1
           omega
-        have hemp : (acc.ents ++ r.ents).isEmpty = false := by simp [hE1]
+        have hpt : r.prevTerm = x.term := by
+          have := h.pt; simp only [prevTermOK, hx, beq_iff_eq] at this; exact this
+        have hpos : 0 < acc.ents.length := List.length_pos_iff.mpr hE1
+        have hrp : r.prev > 0 := by have := h.chain; omega
         have hack := filterAppend_ack l acc.prev acc.prevTerm acc.ents h.accA
-        have hll := lastLogId_of_last hok.gap hz (by rw [hzi, ← h.chain]; exact hlast)
-        simp only [matchAfter, mergeReq_ents, mergeReq_prev, mergeReq_prevTerm, hE2, List.append_nil,
-          List.isEmpty_nil, ↓reduceIte]
         have hemp1 : acc.ents.isEmpty = false := by simpa using hE1
-        simp only [hemp1, Bool.false_eq_true, ↓reduceIte, hack, hx, Option.map_some, hll, idOf, hzi, hzt, hxi]
+        simp only [matchAfter, mergeReq_ents, mergeReq_prev, mergeReq_prevTerm, hE2, List.append_nil,
+          List.isEmpty_nil, ↓reduceIte, hemp1, Bool.false_eq_true, hack, hx, Option.map_some, prevId, idOf,
+          hpt, h.chain, hxi]
+        rw [if_pos (by omega)]
   · have hemp2 : r.ents.isEmpty = false := by simpa using hE2
     have hemp12 : (acc.ents ++ r.ents).isEmpty = false := by simp [hE2]
     have h1 := filterAppend_ack l acc.prev acc.prevTerm (acc.ents ++ r.ents) h.accA
@@ -222,8 +188,7 @@ theorem matchAfter_merge {l : Log} {acc r : Req} (h : ChainStep l acc r)
 /-- match position of the last ack of one-at-a-time processing. -/
 theorem seq_lastAck (l : Log) (acc : Req) (rest : List (Req × Nat)) (s : FState) (hne : rest ≠ [])
     (hk : ∀ p ∈ rest, 0 < p.2)
-    (hc : ChainOK l acc rest) (hlog : s.log = logAfter l acc) (hterm : s.term = acc.term)
-    (hanch : ackAnchored s (acc.ents.isEmpty) rest = true) :
+    (hc : ChainOK l acc rest) (hlog : s.log = logAfter l acc) (hterm : s.term = acc.term) :
     (processSeq s rest).2.getLast?.bind Ack.matchId = matchAfter l (mergeAll acc rest) := by
   induction rest generalizing acc s with
   | nil => exact absurd rfl hne
@@ -236,13 +201,7 @@ theorem seq_lastAck (l : Log) (acc : Req) (rest : List (Req × Nat)) (s : FState
     have hk0 : 0 < k := hk (r, k) List.mem_cons_self
     cases rest with
     | nil =>
-      simp only [ackAnchored, Bool.or_eq_true, Bool.not_eq_true', List.isEmpty_eq_false_iff, List.isEmpty_iff,
-        decide_eq_true_eq] at hanch
-      have hma := matchAfter_merge hstep (by
-        rcases hanch with (h' | h') | h'
-        · exact Or.inl h'
-        · exact Or.inr (Or.inl h')
-        · exact Or.inr (Or.inr (by rw [← hlog]; exact h')))
+      have hma := matchAfter_merge hstep
       simp only [processSeq, mergeAll, List.append_nil, hs]
       rw [hma, hlog]
       obtain ⟨k', rfl⟩ : ∃ k', k = k' + 1 := ⟨k - 1, by omega⟩
@@ -250,8 +209,6 @@ theorem seq_lastAck (l : Log) (acc : Req) (rest : List (Req × Nat)) (s : FState
     | cons q rest' =>
       have := ih (mergeReq acc r) (stepReq s r).1 (by simp) (fun p hp => hk p (List.mem_cons_of_mem _ hp)) hrest
         (by rw [hs, hlog]; exact hm.2.symm) (by rw [hs]; exact hrt)
-        (by simp only [ackAnchored] at hanch
-            simpa [mergeReq_ents, isEmpty_append'] using hanch)
       simp only [processSeq, mergeAll] at this ⊢
       rw [List.getLast?_append]
       rw [← this]
@@ -315,13 +272,11 @@ theorem merge_equiv_log (maxMerge : Nat) (st : FState) (r : Req) (k : Nat) (rest
   rw [hq.1, hsM, hseq.1, hseq.2.1]
   exact ⟨rfl, (mergeAll_prev r rest).2.2⟩
 
-/-- **C36 (log, term, commit index, acknowledgements)** for `mergeable` queues whose first request is
-    accepted, no request truncating a tail an earlier one left (`noShrink`), last ack anchored. -/
+/-- **C36 (full strength): log, term, commit index and acknowledgements** are the same merged or one at a
+    time, for every `mergeable` queue whose first request is accepted (every event carrying ≥ 1 sender). -/
 theorem merge_equiv (maxMerge : Nat) (st : FState) (r : Req) (k : Nat) (rest : List (Req × Nat))
     (hk : 0 < k ∧ ∀ p ∈ rest, 0 < p.2)
-    (hm : mergeable maxMerge st r rest = true) (hacc : Accepts st r)
-    (hns : noShrink (stepReq st r).1 rest = true)
-    (hanch : ackAnchored (stepReq st r).1 r.ents.isEmpty rest = true) :
+    (hm : mergeable maxMerge st r rest = true) (hacc : Accepts st r) :
     (processQ maxMerge st ((r, k) :: rest)).1.log = (processSeq st ((r, k) :: rest)).1.log ∧
     (processQ maxMerge st ((r, k) :: rest)).1.term = (processSeq st ((r, k) :: rest)).1.term ∧
     (processQ maxMerge st ((r, k) :: rest)).1.commit = (processSeq st ((r, k) :: rest)).1.commit ∧
@@ -332,7 +287,7 @@ theorem merge_equiv (maxMerge : Nat) (st : FState) (r : Req) (k : Nat) (rest : L
   have hs1 := stepReq_accepted hacc
   have hsM := stepReq_accepted (accepts_mergeAll rest hacc)
   have hseq := seq_log st.log r rest (stepReq st r).1 hc (by rw [hs1]) (by rw [hs1])
-  have hcm := seq_commit st.log st.commit r rest (stepReq st r).1 hc (by rw [hs1]) (by rw [hs1]) (by rw [hs1]) hns
+  have hcm := seq_commit st.log st.commit r rest (stepReq st r).1 hc (by rw [hs1]) (by rw [hs1]) (by rw [hs1])
   refine ⟨hl.1, hl.2, ?_, ?_⟩
   · simp only [processSeq]
     rw [hq.1, hsM, hcm]
@@ -355,7 +310,7 @@ theorem merge_equiv (maxMerge : Nat) (st : FState) (r : Req) (k : Nat) (rest : L
       · subst hr
         obtain ⟨k', hk'⟩ : ∃ k', k = k' + 1 := ⟨k - 1, by omega⟩
         simp [processSeq, mergeAll, hs1, hk', List.replicate_succ', Ack.matchId]
-      · have hla := seq_lastAck st.log r rest (stepReq st r).1 hr hk.2 hc (by rw [hs1]) (by rw [hs1]) hanch
+      · have hla := seq_lastAck st.log r rest (stepReq st r).1 hr hk.2 hc (by rw [hs1]) (by rw [hs1])
         rw [processSeq_cons, List.getLast?_append, ← hla]
         cases hgl : (processSeq (stepReq st r).1 rest).2.getLast? with
         | none =>
@@ -408,16 +363,7 @@ theorem no_merge_literal (maxMerge : Nat) (st : FState) (r : Req) (k : Nat) (res
     simp only [processSeq, stepReq_fst, stepReq_snd] at this ⊢
     exact ⟨this.1, by rw [this.2]⟩
 
-/-! ## what is false as coded -/
-
-/-- C36 at full strength for leader-well-formed queues: log, commit index and acknowledgement equivalence,
-    with no assumption about tails behind the chain. -/
-def MergeEquivStatement : Prop :=
-  ∀ (maxMerge : Nat) (st : FState) (r : Req) (k : Nat) (rest : List (Req × Nat)),
-    0 < k → (∀ p ∈ rest, 0 < p.2) → mergeable maxMerge st r rest = true → Accepts st r →
-    (processQ maxMerge st ((r, k) :: rest)).1.log = (processSeq st ((r, k) :: rest)).1.log ∧
-    (processQ maxMerge st ((r, k) :: rest)).1.commit = (processSeq st ((r, k) :: rest)).1.commit ∧
-    ackEquiv (processQ maxMerge st ((r, k) :: rest)).2.1 (processSeq st ((r, k) :: rest)).2 = true
+/-! ## the old F50 witness, now a regression example -/
 
 /-- follower of term 2, commit 3, log 1..10 all term 1 (7..10 is a stale tail: the leader's 7.. are term 2). -/
 def wStaleTail : FState :=
@@ -428,17 +374,21 @@ def wStaleTail : FState :=
 def wR1 : Req := { term := 2, leader := 1, prev := 5, prevTerm := 1, commit := 9, ents := [⟨6,1,106⟩] }
 def wR2 : Req := { term := 2, leader := 1, prev := 6, prevTerm := 1, commit := 9, ents := [⟨7,2,207⟩] }
 
-/-- **Refuted as coded** (F50): one at a time the follower ends with commit = 9 on a log that ends at 7
-    (it committed the stale entries 7..9, then truncated them); merged it ends with commit = 7. -/
-theorem merge_equiv_refuted : ¬ MergeEquivStatement := by
-  intro h
-  have := (h 1000 wStaleTail wR1 1 [(wR2, 1)] (by decide) (by decide) (by decide) (by decide)).2.1
-  revert this
-  decide
-
+/-- Before fix F50 one-at-a-time processing ended with commit = 9 on a log ending at 7 (stale 7..9 were
+    committed, then truncated) while merged processing ended with commit = 7. Now both give 7, and the
+    intermediate commit index after the first request is 6 = prev + len. -/
 example : (processQ 1000 wStaleTail [(wR1, 1), (wR2, 1)]).1.commit = 7 ∧
-          (processSeq wStaleTail [(wR1, 1), (wR2, 1)]).1.commit = 9 ∧
+          (processSeq wStaleTail [(wR1, 1), (wR2, 1)]).1.commit = 7 ∧
+          (stepReq wStaleTail wR1).1.commit = 6 ∧
           (processSeq wStaleTail [(wR1, 1), (wR2, 1)]).1.log.lastIdx = 7 := by decide
+
+/-- a trailing heartbeat is acknowledged with the position it verified, (6,1), not the follower's whole last
+    log id (10,1) — merged or not. -/
+example :
+    (processSeq wStaleTail [(wR1, 1), ({ wR1 with prev := 6, ents := [] }, 1)]).2 =
+      [.success 2 (some (6, 1)), .success 2 (some (6, 1))] := by decide
+
+/-! ## what is false by design -/
 
 /-- The literal reading — every sender receives the very response it would have received alone — is false
     by design even in the most benign case (empty follower, two abutting requests, term adoption): sender 1
@@ -467,9 +417,7 @@ example :
     let r2 : Req := { term := 2, leader := 1, prev := 4, prevTerm := 2, commit := 3, ents := [] }
     let r3 : Req := { term := 2, leader := 1, prev := 4, prevTerm := 2, commit := 5, ents := [⟨5,2,105⟩] }
     mergeable 1000 st r1 [(r2, 1), (r3, 1)] = true ∧ Accepts st r1 ∧
-    noShrink (stepReq st r1).1 [(r2, 1), (r3, 1)] = true ∧
-    ackAnchored (stepReq st r1).1 r1.ents.isEmpty [(r2, 1), (r3, 1)] = true ∧
     (processQ 1000 st [(r1, 1), (r2, 1), (r3, 1)]).1.commit = 5 := by
-  refine ⟨by decide, ⟨by decide, Or.inr (by decide)⟩, by decide, by decide, by decide⟩
+  refine ⟨by decide, ⟨by decide, Or.inr (by decide)⟩, by decide⟩
 
 end DEngine.C36
